@@ -94,6 +94,17 @@ def partitions (t : Rose) : QR (List Part) := do
 
 def sides (ps : List Part) : List Side := ps.map (·.side)
 
+/-- `get_partitions` on an arena: the crate only needs live nodes, not a root; an arena whose nodes were all
+    removed has an empty leaf index and no bipartition (an arena without any slot is `IsEmpty`) -/
+def partitionsArena (a : Arena) : QR (List String × List Part) :=
+  match getRoot a with
+  | none => if a.size = 0 then .err "IsEmpty" else .ok ([], [])
+  | some _ => do
+    let t ← absRoot a
+    let all ← leafIndex t
+    let ps ← partitions t
+    pure (all, ps)
+
 def inter (a b : List Side) : Nat := (a.filter (fun s => b.contains s)).length
 
 /-- partitions of the root's child branches (as a set), used by the root-placement correction -/
